@@ -75,17 +75,16 @@ PROPS = {
         not_yet_proved=[],
     ),
     "C13": dict(
-        claimed=False,
         runs=runs([("queries", "release")], [("queries", "release"), ("queries", "debug")]),
         rule="cases = every tree with <= 4 (thorough 5) elements over {interned 'a', interned '', 'éb', static ''} incl. empty nodes and zero-length tokens at every "
              "boundary x every node as starting point x every offset in [start, end] x every range inside [start, end] (exhaustive), on a fresh red tree; "
              "+ the first offset / range outside the precondition (must panic); + 60 random queries on each of 200 (thorough 2000) random trees; plain and resolved API; "
              "non-trivial = a query inside the precondition was answered; distinct = distinct op text",
-        assumptions=[],
-        not_yet_proved=[],
+        assumptions=["theorems cover covering_element (contains the range, never panics inside the precondition); token_at_offset is tied by the exhaustive correspondence and the brute-force oracle, its totality/specification proof is listed under not_yet_proved"],
+        not_yet_proved=["tao_total / tao_spec: token_at_offset never reaches its unwrap / assert / unreachable! inside the precondition and classifies none/single/between by the non-empty tokens touching the offset (needs: at most two non-empty children contain an offset; edge_single)",
+                        "cover_deepest: no child of the returned element contains the range"],
     ),
     "C14": dict(
-        claimed=False,
         runs=runs([("replace", "release")], [("replace", "release"), ("replace", "debug"), ("replace", "lasso")]),
         rule="cases = every tree with <= 4 (thorough 5) elements x every position (root, inner node, leaf node, token; first/middle/last) x 4 (thorough 6) replacements "
              "(an equal element, an empty one, a larger one, a random one; occasionally one of another kind, which must panic), + a tree whose deduplicated sub-tree "
